@@ -81,10 +81,16 @@ theorem c18_cmd_tags_distinct :
 
 example : ∃ f ∈ functions, ∃ r, cmdFieldFor f.key = some r ∧ r.idx ≥ 2 := by decide +kernel
 
-/-- `util.IsNil` decides whether a selectors / elements argument is absent; its only caller is the filter
-    builder, which the harness drives with every nil form. A new caller is new glue to be covered. -/
-theorem c18_isnil_callers : isNilCallers = ["spine/function_data_cmd.go:filtersForSelectorsElements"] := by
-  decide
+/-! `util.IsNil` decides whether a selectors / elements argument is absent. Until the deepening round a
+    theorem here pinned the regenerated list of its callers to
+    `["spine/function_data_cmd.go:filtersForSelectorsElements"]` — a purely syntactic fact (the NAME of the
+    calling function), which raised a false alarm on a behaviour-preserving extraction of a helper
+    (benign/C18-2). It is no proof obligation any more: WHAT the builders do with each form of nil is
+    decided on every run by the harness (every non-empty subset of the absent argument positions of every
+    shape passed as nil pointers of the concrete selectors / elements type, compared with the untyped-nil
+    build and with the model, `c18_builder_nil_forms_agree`; `util.IsNil` itself on every form of nil), for
+    whichever functions the builders are made of. The callers are still listed by the translator, in its
+    summary line (evidence notes), as information only. -/
 
 /-! ## G2 — selector and elements tags -/
 
@@ -116,6 +122,42 @@ def filterTagDangling (r : FilterRow) : Bool :=
 theorem c18_filter_tags_resolve :
     ∀ r ∈ filterFields, filterTagDangling r = true → (tagFailing.any fun t => t.2.2 == r.idx) = true := by
   decide +kernel
+
+/-! ### the naming convention, cross-checked
+
+Which `FilterType` field "the data model provides" for a function is decided from Go type names
+(`*<P>SelectorsType`, `*<P>ElementsType` or the list item's) — a convention, independent of the tags that are
+being checked. The two theorems below tie the convention to two further independent sources, so that it is
+not merely assumed: the tag table itself in the converse direction, and the structure of the types. -/
+
+/-- a well-formed tag row (`fct` names a registered function, `typ` is selector / elements) sits on the
+    field the naming convention expects for that function -/
+def tagRowConv (r : FilterRow) : Bool :=
+  !(r.isPtr && !r.skipped && r.hasFct && r.fct != 0 && r.hasTyp && (r.typ == 1 || r.typ == 2)) ||
+  match functions.find? (·.key == r.fct) with
+  | none => true        -- no registered function: `c18_filter_tags_resolve`
+  | some f => match expectRow? f with
+    | some e => (if r.typ == 1 then e.sel else e.el) == some r.idx
+    | none => false
+
+/-- CONVERSE of `c18_selector_tag_ok` / `c18_elements_tag_ok`: every tag that names a registered function
+    is on the field the convention expects. With the two theorems above: on the rows outside `tagFailing`
+    the convention and the tag table (243 fields, written independently of the Go type names) say the same
+    in both directions — a convention that picked a wrong field for some function would contradict its tag. -/
+theorem c18_tags_imply_convention : ∀ r ∈ filterFields, tagRowConv r = true := by decide +kernel
+
+/-- non-vacuity: tags naming registered functions exist, of both kinds -/
+example : (∃ r ∈ filterFields, r.typ = 1 ∧ (functions.find? (·.key == r.fct)).isSome) ∧
+    (∃ r ∈ filterFields, r.typ = 2 ∧ (functions.find? (·.key == r.fct)).isSome) := by decide +kernel
+
+/-- STRUCTURE: the elements type the convention picks for a function fits the function's payload — every
+    field of it has the json name of a field of the payload's list item (of the payload itself where it is
+    no list). Regenerated by reflection (`conventionFits`); a type picked wrongly by name would not fit. -/
+theorem c18_convention_elements_fit :
+    (conventionFits.all fun r => r.2.2 != some false) = true ∧
+    conventionFits.map (·.1) = functions.map (·.key) := by decide +kernel
+
+example : ∃ r ∈ conventionFits, r.2.2 = some true ∧ r.2.1 = some true := by decide +kernel
 
 /-- non-vacuity: functions with a selectors field and functions with an elements field exist and pass -/
 example : (∃ f ∈ functions, (selTy? f).isSome ∧ selFailing f = false) ∧
